@@ -267,7 +267,10 @@ GUARD_TEXTS = sorted({f.replace("{S}", sv) for f in GUARD_FORMS for sv in _SYS})
 # pattern literals the host's regular-expression compiler accepts with a warning about its future syntax: whether a
 # text is a program must not depend on the host's warning filter (one fresh process runs with warnings as errors)
 WARN_TEXTS = ["//[[a]//", "//[a--b]//", "//[a&&b]//", "//[a||b]//", "//[a~~b]//", "def p = //[[:alpha:]]//", "x matches //[[a]//"]
-GUARD_TEXTS = sorted(set(GUARD_TEXTS) | set(WARN_TEXTS))
+# inline flags the host's compiler refuses with an exception of its own kind (not its pattern error)
+FLAG_TEXTS = ["//(?a)(?u)x//", "//(?u)(?a)//", "//(?L)x//", "//(?aL)x//", "def p = //(?a)(?u)x//", "x matches //(?L)a//",
+              "//(?a)x(?u)//", "//(?i)(?L)//"]
+GUARD_TEXTS = sorted(set(GUARD_TEXTS) | set(WARN_TEXTS) | set(FLAG_TEXTS))
 
 
 def compose(rng, fragments, n):
